@@ -219,6 +219,9 @@ impl<M: Model> Sender<M> {
             coerce_box!(RecycleBox::recycle(vacated_box, MessageFnOnce::new(msg_fn)))
         });
 
+        #[cfg(nexosim_verif)]
+        crate::verif::yield_now(1).await;
+
         let success = self
             .inner
             .sender_signal
